@@ -36,7 +36,7 @@ Decides necessary structural conditions only (never that decoded values equal wh
                                     them) and on the ReferenceTable on every path; clear() stores 0
    o5m-reset-on-marker              decode_data calls reset() exactly for dataset byte 0xff (exhaustive over 0..255)
  clause 6  o5m string reference ring
-   o5m-ring-constants               15000 entries, entries of >= max_length bytes, max_length == 250 + 2, table sized entries * size
+   o5m-ring-constants               the slot counter wraps at 15000, the stride covers the longest stored string, table sized entries * stride
    o5m-ring-add                     add() stores exactly the strings of size <= max_length at slot current*entry_size, then advances the
                                     slot by one and wraps at number_of_entries
    o5m-ring-get                     get() rejects exactly index 0 and index > number_of_entries, and addresses slot
@@ -329,13 +329,38 @@ PARAM_FIELDS = {'granularity': ('granularity', 100), 'lat_offset': ('lat_offset'
                 'date_factor': ('date_granularity', 1000)}
 
 
+def resolve(fn, nid):
+    """Stripped node of an expression, looking through casts and through locals that only name another expression."""
+    n = strip_casts(fn, nid)
+    hops = 0
+    while n is not None and hops < 8:
+        hops += 1
+        m = codec.through_locals(fn, n['id'])
+        m = strip_casts(fn, m['id']) if m is not None else None
+        if m is None or m['id'] == n['id']:
+            break
+        n = m
+    return n
+
+
+def resolved_leaves(fn, nid, depth=0):
+    """leaves() with single-assignment locals replaced by the leaves of their initialiser."""
+    out = []
+    for x in leaves(fn, nid):
+        if x[0] == 'local' and x[1] in codec.local_inits(fn) and depth < 6:
+            out.extend(resolved_leaves(fn, codec.local_inits(fn)[x[1]], depth + 1))
+        else:
+            out.append(x)
+    return out
+
+
 def _parse_convert(fn):
     """{'gran': field q, 'off': field q, 'den': global q} of `return (param * G + O) / D`; raises Shape; returns ('bad', text) when
     the dependencies of the result are not {param, two members, one global}."""
     rets = [n for n in fn.all_nodes() if n.get('k') == 'return' and 'sub' in n]
     if len(rets) != 1:
         raise Shape('%d return statements' % len(rets))
-    lv = leaves(fn, rets[0]['sub'])
+    lv = resolved_leaves(fn, rets[0]['sub'])
     params = {x[1] for x in lv if x[0] == 'param'}
     fields = [x for x in lv if x[0] == 'field']
     globs = {x[1] for x in lv if x[0] == 'global'}
@@ -346,20 +371,20 @@ def _parse_convert(fn):
         return ('bad', 'the result must depend on exactly {argument, granularity member, offset member, resolution constant}; it depends on '
                        'parameters %d, members %s, constants %s'
                 % (len(params), sorted(f[2] for f in fields), sorted(g.rsplit('::', 1)[-1] for g in globs)))
-    e = strip_casts(fn, rets[0]['sub'])
+    e = resolve(fn, rets[0]['sub'])
     if e is None or e.get('k') != 'binop' or e['op'] != '/':
         raise Shape('return expression is not a quotient')
-    den = strip_casts(fn, e['rhs'])
+    den = resolve(fn, e['rhs'])
     if den is None or den.get('k') != 'var' or den.get('vk') not in ('global', 'static_member'):
         raise Shape('divisor is not a named constant')
-    num = strip_casts(fn, e['lhs'])
+    num = resolve(fn, e['lhs'])
     if num is None or num.get('k') != 'binop' or num['op'] != '+':
         raise Shape('dividend is not a sum')
-    a, b = strip_casts(fn, num['lhs']), strip_casts(fn, num['rhs'])
+    a, b = resolve(fn, num['lhs']), resolve(fn, num['rhs'])
     prod, off = (a, b) if (a is not None and a.get('k') == 'binop' and a['op'] == '*') else (b, a)
     if prod is None or prod.get('k') != 'binop' or prod['op'] != '*' or this_field(fn, off) is None:
         raise Shape('dividend is not (argument * member) + member')
-    x, y = strip_casts(fn, prod['lhs']), strip_casts(fn, prod['rhs'])
+    x, y = resolve(fn, prod['lhs']), resolve(fn, prod['rhs'])
     par, gran = (x, y) if (x is not None and x.get('k') == 'var') else (y, x)
     if par is None or par.get('k') != 'var' or par.get('vk') != 'param' or this_field(fn, gran) is None:
         raise Shape('product is not argument * member')
@@ -639,18 +664,30 @@ SIGNED8 = ('char', 'const char', 'signed char', 'const signed char')
 
 
 def _byte_term(fn, node):
+    # node: id of the (unstripped) term expression
     """(byte index, shift, zero-extended?, element type, base root) for `cast(p[i]) << K` / `cast(p[i])` / masked forms."""
     shift = 0
-    n = node
+    n = strip_casts(fn, node)
+    if n is None:
+        return None
     if n.get('k') == 'binop' and n['op'] == '<<':
         shift = fn.const_value(n['rhs'])
         if shift is None:
             return None
         top = n['lhs']
     else:
-        top = n['id']
+        top = node
     masked = False
     t = strip_casts(fn, top)
+    if t is not None and t.get('k') == 'var':
+        r = resolve(fn, t['id'])
+        if r is not None and r['id'] != t['id']:
+            # a local that only names the byte: judge the widening at its initialiser (declared type of the local included)
+            d = t.get('d')
+            init = codec.local_inits(fn).get(d)
+            if init is not None:
+                top = init
+                t = strip_casts(fn, top)
     if t is not None and t.get('k') == 'binop' and t['op'] == '&' and fn.const_value(t['rhs']) == 0xff:
         masked = True
         top = t['lhs']
@@ -658,7 +695,8 @@ def _byte_term(fn, node):
     if t is None or t.get('k') != 'index':
         return None
     idx = fn.const_value(t['idx'])
-    root = fn.root_var(t['base'])
+    base = resolve(fn, t['base'])
+    root = fn.root_var(base['id']) if base is not None else None
     if idx is None or root is None:
         return None
     elem = t.get('t', '')
@@ -697,12 +735,16 @@ def _assembler(fn):
         stack = [n['sub']]
         ok = True
         while stack and ok:
-            x = codec.through_locals(fn, stack.pop())
-            x = strip_casts(fn, x['id']) if x is not None else None
+            raw = stack.pop()
+            x = strip_casts(fn, raw)
+            if x is not None and x.get('k') == 'var':
+                y = resolve(fn, x['id'])
+                if y is not None and y.get('k') == 'binop' and y['op'] in ('|', '+'):
+                    x = y
             if x is not None and x.get('k') == 'binop' and x['op'] in ('|', '+'):
                 stack += [x['lhs'], x['rhs']]
                 continue
-            t = _byte_term(fn, x) if x is not None else None
+            t = _byte_term(fn, raw) if x is not None else None
             if t is None:
                 ok = False
             else:
@@ -811,13 +853,23 @@ def pbf_framing_rules(fb, R, PARSER=NS + 'PBFParser', LIMIT=NS + 'max_blob_heade
                             d = v['d']
                 if d is not None:
                     rets = [n for n in fn.all_nodes() if n.get('k') == 'return' and 'sub' in n
-                            and (strip_casts(fn, n['sub']) or {}).get('k') == 'var' and strip_casts(fn, n['sub']).get('d') == d]
+                            and any(fn.nodes[y].get('k') == 'var' and fn.nodes[y].get('d') == d for y in fn.subtree(n['sub']))]
                     if rets:
                         verdict = (True, '')
                         for r in rets:
-                            res = _limit_guard(fn, r['id'], LIMIT)
+                            rv = strip_casts(fn, r['sub'])
+                            if rv is not None and rv.get('k') == 'var':
+                                res = _limit_guard(fn, r['id'], LIMIT)
+                            elif rv is not None and rv.get('k') == 'call' and rv.get('u') and len(rv.get('args', [])) == 1 and \
+                                    (strip_casts(fn, rv['args'][0]) or {}).get('d') == d:
+                                gs = [g for g in fb.by_usr.get(rv['u'], []) if g.has_cfg]
+                                res = checker_ok(gs[0]) if gs else None
+                                if res is not None and not res[0]:
+                                    res = (False, 'it is passed to %s which %s' % (rv['q'].rsplit('::', 1)[-1], res[1]))
+                            else:
+                                res = None
                             if res is None or not res[0]:
-                                verdict = res if res is not None else None
+                                verdict = res
                                 break
             elif p is not None and p.get('k') == 'return':
                 verdict = (False, 'it is returned unchecked')
@@ -904,10 +956,26 @@ def o5m_reset_rules(fb, R, PARSER=NS + 'O5mParser', TABLE=NS + 'ReferenceTable',
         R.broken('%s has no DeltaDecode / ReferenceTable member' % PARSER)
     for fn in fns:
         clears = {}
+        inits = {}
+        for n in fn.all_nodes():
+            if n.get('k') == 'decl':
+                for v in n['vars']:
+                    if isinstance(v.get('init'), int):
+                        inits[v['d']] = (v['init'], n['id'])
+        unknown = False
         for n in fn.all_nodes():
             if n.get('k') != 'call' or n.get('q') not in (DELTA + '::clear', TABLE + '::clear') or n.get('recv') is None:
                 continue
             r = fn.sn(n['recv'])
+            if r is not None and r.get('k') == 'var' and r.get('d') in inits:
+                # `for (auto& x : member) x.clear();`  x = *__begin, __begin = __range.begin(), __range = member
+                rng = _range_for_field(fn, r['d'], inits)
+                if rng is not None:
+                    clears.setdefault((rng[0], 'all'), []).append(rng[1])
+                    continue
+                unknown = True
+                R.broken('%s: clear() on local %s whose origin is not understood at %s' % (fn.q, r['name'], fn.loc(n['id'])))
+                continue
             idx = None
             if r is not None and r.get('k') == 'call' and r.get('op') == '[]' and r.get('args'):
                 idx = fn.const_value(r['args'][0])
@@ -919,8 +987,10 @@ def o5m_reset_rules(fb, R, PARSER=NS + 'O5mParser', TABLE=NS + 'ReferenceTable',
             root = fn.root_var(n['recv'])
             if root is not None and root[0] == 'field':
                 clears.setdefault((root[1], idx), []).append(n['id'])
+        if unknown:
+            continue
         for (fq, fname, i) in required:
-            ids = set(clears.get((fq, i), []))
+            ids = set(clears.get((fq, i), [])) | set(clears.get((fq, 'all'), []))
             label = fname if i is None else '%s[%d]' % (fname, i)
             w = path_search(fn, fn.entry, _exit_t, lambda x: x in ids, from_block_start=True) if ids else ['none']
             R.check(bool(ids) and w is None, R_RESET, '%s#%s' % (fn.q, label), fn.site,
@@ -942,6 +1012,32 @@ def o5m_reset_rules(fb, R, PARSER=NS + 'O5mParser', TABLE=NS + 'ReferenceTable',
             ids = {n['id'] for n in zeroed}
             w = path_search(g, g.entry, _exit_t, lambda x: x in ids, from_block_start=True) if ids else ['none']
             R.check(bool(ids) and w is None, R_RESET, q + '#stores-zero', g.site, '%s must store 0 to the state it resets' % q)
+
+
+def _range_for_field(fn, d, inits):
+    """(field q, id of the __range declaration) when local d is the loop variable of a range-based for over a member."""
+    hops = 0
+    cur = d
+    while cur in inits and hops < 6:
+        hops += 1
+        init, decl = inits[cur]
+        n = fn.sn(init)
+        if n is None:
+            return None
+        if n.get('k') == 'unop' and n['op'] == '*':
+            n = fn.sn(n['sub'])
+        if n is not None and n.get('k') == 'call' and n.get('recv') is not None and n.get('q', '').rsplit('::', 1)[-1] in ('begin', 'cbegin'):
+            n = fn.sn(n['recv'])
+        if n is None:
+            return None
+        if n.get('k') == 'var':
+            cur = n.get('d')
+            continue
+        f = this_field(fn, n)
+        if f is not None:
+            return (f, decl)
+        return None
+    return None
 
 
 def _byte_guard_set(fn, nid, var_d):
@@ -1137,8 +1233,46 @@ RING_ENTRIES = 15000
 RING_MAXLEN = 250 + 2
 
 
-def _enumconst(n, name=None):
-    return n is not None and n.get('k') == 'var' and n.get('vk') == 'enumconst' and (name is None or n['name'] == name)
+def _mentions(fn, nid, d):
+    return any(fn.nodes[x].get('k') == 'var' and fn.nodes[x].get('d') == d for x in fn.subtree(nid))
+
+
+def _guard_consts(fn, nid, d):
+    """integer constants compared with variable d in the guards of node nid."""
+    out = set()
+    for (c, _s, _b) in edge_guards(fn, nid, loop_exits=True):
+        for x in fn.subtree(c):
+            m = fn.nodes[x]
+            if m.get('k') == 'binop' and m['op'] in ('<', '<=', '>', '>=', '==', '!=') and _mentions(fn, x, d):
+                for side in (m['lhs'], m['rhs']):
+                    v = fn.const_value(side)
+                    if v is not None:
+                        out.add(v)
+    return out
+
+
+def _reached_for(fn, nid, d, v, extra=None):
+    """Does node nid execute when variable d == v, judging the guards that mention d?  None = a guard cannot be evaluated."""
+    def value_of(f, node):
+        if node.get('k') == 'var' and node.get('d') == d:
+            return v
+        if extra is not None:
+            return extra(f, node)
+        return None
+    for (c, sense, _b) in edge_guards(fn, nid, loop_exits=True):
+        if not _mentions(fn, c, d):
+            continue
+        n = fn.sn(c)
+        if n is not None and n.get('k') == 'unop' and n['op'] == '!':
+            continue            # expanded into its operand
+        if n is not None and n.get('k') == 'binop' and ((n['op'] == '&&' and sense) or (n['op'] == '||' and not sense)):
+            continue            # expanded into its operands
+        r = eval_cond(fn, c, value_of)
+        if r is None:
+            raise Shape('guard %s cannot be evaluated' % fn.expr(c))
+        if r != sense:
+            return False
+    return True
 
 
 def o5m_ring_rules(fb, R, TABLE=NS + 'ReferenceTable'):
@@ -1148,91 +1282,56 @@ def o5m_ring_rules(fb, R, TABLE=NS + 'ReferenceTable'):
     if not adds or not gets or rec is None:
         R.broken('%s::add / get not found' % TABLE)
         return
-    consts = {}
-    for fn in adds + gets:
-        for n in fn.all_nodes():
-            if _enumconst(n) and 'cv' in n and n.get('q', '').startswith(TABLE + '::'):
-                consts[n['name']] = int(n['cv'])
-    N = consts.get('number_of_entries')
-    ES = consts.get('entry_size')
-    ML = consts.get('max_length')
-    if N is None or ES is None or ML is None:
-        R.broken('%s: constants number_of_entries / entry_size / max_length are not all used by add() and get() (%s)' % (TABLE, sorted(consts)))
-        return
     site = '%s:%d' % (rec.file, rec.line)
-    R.check(N == RING_ENTRIES, R_RCONST, TABLE + '::number_of_entries', site,
-            'the o5m string table has %d entries in this reader; the format fixes it at %d, so a reference older than %d resolves to a '
-            'different string than the writer meant' % (N, RING_ENTRIES, min(N, RING_ENTRIES)))
-    R.check(ML == RING_MAXLEN, R_RCONST, TABLE + '::max_length', site,
-            'max_length is %d; the format stores string pairs of up to 250 characters (+ 2 NUL bytes = %d) in the table' % (ML, RING_MAXLEN))
-    R.check(ES >= ML, R_RCONST, TABLE + '::entry_size', site, 'entry_size %d is smaller than max_length %d: neighbouring entries overlap' % (ES, ML))
-
-    cur = None   # the slot counter member
+    cur = None      # the slot counter member
+    ES = None       # stride add() writes with
+    N = None        # value the slot counter wraps at
+    stored_max = None
     for fn in adds:
         key0 = fn.q
         copies = [n for n in fn.all_nodes() if n.get('k') == 'call' and n.get('q') in ('std::copy_n', 'std::copy', 'std::memcpy', 'memcpy')]
-        if len(copies) != 1:
+        if len(copies) != 1 or len(copies[0].get('args', [])) < 3:
             R.broken('%s: expected one copy into the table, found %d' % (fn.q, len(copies)))
             continue
         cp = copies[0]
         params = {p['d']: p['name'] for p in fn.params}
-        # ---- boundary: stored exactly for size <= max_length
-        sized = [d for d, nm in params.items() if any(fn.nodes[x].get('k') == 'var' and fn.nodes[x].get('d') == d for a in cp['args'][1:2] for x in fn.subtree(a))]
+        sized = [d for d in params if _mentions(fn, cp['args'][1], d)]
         if len(sized) != 1:
             R.broken('%s: the byte count of the copy is not a parameter' % fn.q)
             continue
         sd = sized[0]
-        verdicts = {}
-        shape_err = None
-        for v in (0, 1, ML - 1, ML, ML + 1, ES, ES + 1):
-            def value_of(f, node, v=v):
-                if node.get('k') == 'var' and node.get('d') == sd:
-                    return v
-                if node.get('k') == 'call' and node.get('q', '').endswith('::empty'):
-                    return None
-                return None
-            ok = True
-            for (c, sense, _b) in edge_guards(fn, cp['id'], loop_exits=True):
-                if not any(fn.nodes[x].get('k') == 'var' and fn.nodes[x].get('d') == sd for x in fn.subtree(c)):
-                    continue
-                n = fn.sn(c)
-                if n is not None and ((n.get('k') == 'binop' and n['op'] in ('&&', '||')) or (n.get('k') == 'unop' and n['op'] == '!')):
-                    if (n.get('k') == 'unop') or (n['op'] == '&&' and sense) or (n['op'] == '||' and not sense):
-                        continue
-                r = eval_cond(fn, c, value_of)
-                if r is None:
-                    shape_err = fn.expr(c)
-                    break
-                if r != sense:
-                    ok = False
-            verdicts[v] = ok
-        if shape_err:
-            R.broken('%s: guard %s of the table copy cannot be evaluated' % (fn.q, shape_err))
-            continue
-        wrong = [v for v, st in sorted(verdicts.items()) if st != (v <= RING_MAXLEN)]
-        R.check(not wrong, R_RADD, key0 + '#stores-up-to-max_length', fn.loc(cp['id']),
-                '%s %s a string pair of %s bytes; the format enters exactly the pairs of up to 250 characters (%d bytes with both NULs) into '
-                'the table, so from such a pair on every back-reference of the file is off by one entry'
-                % (fn.q, 'drops' if wrong and wrong[0] <= RING_MAXLEN else 'stores', wrong[0] if wrong else '', RING_MAXLEN),
-                detail={'stored_for_size': {str(k): v for k, v in verdicts.items()}})
-        # ---- destination slot = current * entry_size
+        # ---- destination slot = current * stride
         dest = None
-        for x in fn.subtree(cp['args'][2]) if len(cp.get('args', [])) >= 3 else []:
+        for x in fn.subtree(cp['args'][2]):
             m = fn.nodes[x]
             if m.get('k') == 'binop' and m['op'] == '*':
                 sides = [strip_casts(fn, m['lhs']), strip_casts(fn, m['rhs'])]
-                f = [s for s in sides if this_field(fn, s) is not None]
-                c = [s for s in sides if s is not None and fn.const_value(s['id']) is not None]
+                f = [t for t in sides if this_field(fn, t) is not None]
+                c = [t for t in sides if t is not None and fn.const_value(t['id']) is not None]
                 if len(f) == 1 and len(c) == 1:
                     dest = (this_field(fn, f[0]), fn.const_value(c[0]['id']), f[0]['name'])
         if dest is None:
             R.broken('%s: destination of the table copy is not &table[member * constant]' % fn.q)
             continue
-        cur = dest[0]
+        cur, ES = dest[0], dest[1]
+        # ---- boundary: stored exactly for size <= 250 + 2 (every ordering of size against the constants it is compared with)
+        reps = {0, 1}
+        for c in _guard_consts(fn, cp['id'], sd) | {RING_MAXLEN, ES}:
+            reps |= {c - 1, c, c + 1}
+        try:
+            verdicts = {v: _reached_for(fn, cp['id'], sd, v) for v in sorted(reps) if v >= 0}
+        except Shape as ex:
+            R.broken('%s: %s' % (fn.q, ex))
+            continue
+        wrong = [v for v, st in sorted(verdicts.items()) if st != (v <= RING_MAXLEN)]
+        stored_max = max([v for v, st in verdicts.items() if st] or [0])
+        R.check(not wrong, R_RADD, key0 + '#stores-up-to-max_length', fn.loc(cp['id']),
+                '%s %s a string pair of %s bytes; the format enters exactly the pairs of up to 250 characters (%d bytes with both NULs) into '
+                'the table, so from such a pair on every back-reference of the file is off by one entry'
+                % (fn.q, 'drops' if wrong and wrong[0] <= RING_MAXLEN else 'stores', wrong[0] if wrong else '', RING_MAXLEN),
+                detail={'stored_for_size': {str(k): v for k, v in sorted(verdicts.items())}})
+        # ---- advance by one after the copy, wrap
         msgs = []
-        if dest[1] != ES:
-            msgs.append('entries are written with stride %d but entry_size is %d' % (dest[1], ES))
-        # ---- advance by one after the copy, wrap at N
         incs = [n for n in fn.all_nodes() if n.get('k') == 'unop' and n['op'] == '++' and this_field(fn, fn.sn(n['sub'])) == cur]
         other = [n for n in fn.all_nodes() if (n.get('k') == 'assign' and this_field(fn, fn.sn(n['lhs'])) == cur and
                                                not (n.get('op') == '=' and fn.const_value(n['rhs']) == 0))
@@ -1249,28 +1348,33 @@ def o5m_ring_rules(fb, R, TABLE=NS + 'ReferenceTable'):
             msgs.append('after storing a string a path leaves add() without advancing %s: the next string overwrites it' % dest[2])
         zero = [n for n in fn.all_nodes() if n.get('k') == 'assign' and n.get('op') == '=' and this_field(fn, fn.sn(n['lhs'])) == cur
                 and fn.const_value(n['rhs']) == 0]
-        wrap_ok = False
         for z in zero:
             for (c, sense, _b) in edge_guards(fn, z['id'], loop_exits=True):
                 n = strip_casts(fn, c)
                 if n is not None and n.get('k') == 'binop' and n['op'] in ('==', '>=') and sense:
-                    l, r = strip_casts(fn, n['lhs']), strip_casts(fn, n['rhs'])
+                    l = strip_casts(fn, n['lhs'])
                     cv = fn.const_value(n['rhs'])
-                    lf = l is not None and (l['id'] == inc['id'] or this_field(fn, l) == cur)
-                    if lf and cv == N:
-                        wrap_ok = True
-                    elif lf and cv is not None:
-                        msgs.append('%s wraps at %d, get() reduces modulo number_of_entries = %d' % (dest[2], cv, N))
-                        wrap_ok = True
-        if not wrap_ok:
-            msgs.append('%s is never wrapped to 0 at number_of_entries (%d)' % (dest[2], N))
+                    if l is not None and (l['id'] == inc['id'] or this_field(fn, l) == cur) and cv is not None:
+                        N = cv
+                        if not fn.elem_dominates(inc['id'], z['id']):
+                            msgs.append('the wrap test does not follow the increment of %s' % dest[2])
+        if N is None:
+            msgs.append('%s is never wrapped to 0 (`if (counter == number of entries) counter = 0`)' % dest[2])
         R.check(not msgs, R_RADD, key0 + '#slot-advance', fn.loc(inc['id']), '%s: %s' % (fn.q, '; '.join(msgs)))
-        # ---- table allocated as entry_size * number_of_entries
+        # ---- constants
+        if N is not None:
+            R.check(N == RING_ENTRIES, R_RCONST, TABLE + '#number-of-entries', site,
+                    'the o5m string table wraps after %d entries in this reader; the format fixes it at %d, so a reference older than %d '
+                    'resolves to a different string than the writer meant' % (N, RING_ENTRIES, min(N, RING_ENTRIES)))
+        R.check(ES >= stored_max, R_RCONST, TABLE + '#entry-size', site,
+                'entries are %d bytes apart but strings of up to %d bytes are stored: neighbouring entries overlap' % (ES, stored_max))
         for n in fn.all_nodes():
-            if n.get('k') == 'call' and n.get('q') in ('std::basic_string::resize', 'std::vector::resize') and n.get('args'):
+            if n.get('k') == 'call' and n.get('q') in ('std::basic_string::resize', 'std::vector::resize') and n.get('args') and N is not None:
                 v = fn.const_value(n['args'][0])
                 R.check(v == ES * N, R_RCONST, TABLE + '#table-size', fn.loc(n['id']),
-                        'the table is sized %s bytes, number_of_entries * entry_size is %d' % (v, ES * N))
+                        'the table is sized %s bytes, number of entries * entry size is %d' % (v, ES * N))
+    if cur is None or ES is None or N is None:
+        return
 
     for fn in gets:
         params = {p['d']: p['name'] for p in fn.params}
@@ -1278,92 +1382,66 @@ def o5m_ring_rules(fb, R, TABLE=NS + 'ReferenceTable'):
             R.broken('%s: expected one parameter' % fn.q)
             continue
         idxd = next(iter(params))
-        # ---- range test: throws exactly for 0 and > N (table not empty)
-        thr = [n for n in fn.all_nodes() if n.get('k') == 'throw']
         rets = [n for n in fn.all_nodes() if n.get('k') == 'return' and 'sub' in n]
-        if not thr or len(rets) != 1:
+        if not any(n.get('k') == 'throw' for n in fn.all_nodes()) or len(rets) != 1:
             R.broken('%s: expected a throw and one return' % fn.q)
             continue
         ret = rets[0]
-        wrong = []
-        shape_err = None
-        for v in (0, 1, 2, N - 1, N, N + 1, 2 * N):
-            def value_of(f, node, v=v):
-                if node.get('k') == 'var' and node.get('d') == idxd:
-                    return v
-                if node.get('k') == 'call' and node.get('q', '').endswith('::empty'):
-                    return False   # table in use
-                return None
-            reached = True
-            for (c, sense, _b) in edge_guards(fn, ret['id'], loop_exits=True):
-                n = fn.sn(c)
-                if n is not None and n.get('k') == 'binop' and n['op'] == '||' and not sense:
-                    continue   # split into its disjuncts
-                if n is not None and n.get('k') == 'binop' and n['op'] == '&&' and sense:
-                    continue
-                if n is not None and n.get('k') == 'unop' and n['op'] == '!':
-                    continue
-                r = eval_cond(fn, c, value_of)
-                if r is None:
-                    shape_err = fn.expr(c)
-                    break
-                if r != sense:
-                    reached = False
-            if shape_err:
-                break
-            if reached != (1 <= v <= N):
-                wrong.append(v)
-        if shape_err:
-            R.broken('%s: guard %s of the table lookup cannot be evaluated' % (fn.q, shape_err))
+        # ---- range test: the lookup is reached exactly for 1..N (table in use)
+        reps = {0, 1, 2}
+        for c in _guard_consts(fn, ret['id'], idxd) | {RING_ENTRIES, N}:
+            reps |= {c - 1, c, c + 1}
+
+        def in_use(f, node):
+            if node.get('k') == 'call' and node.get('q', '').endswith('::empty'):
+                return False
+            return None
+        try:
+            wrong = [v for v in sorted(reps) if v >= 0 and _reached_for(fn, ret['id'], idxd, v, in_use) != (1 <= v <= RING_ENTRIES)]
+        except Shape as ex:
+            R.broken('%s: %s' % (fn.q, ex))
             continue
         R.check(not wrong, R_RGET, fn.q + '#index-range', fn.site,
                 '%s %s reference %s; valid references are 1..%d (1 = most recent string)'
-                % (fn.q, 'rejects' if wrong and 1 <= wrong[0] <= N else 'accepts', wrong[0] if wrong else '', N))
+                % (fn.q, 'rejects' if wrong and 1 <= wrong[0] <= RING_ENTRIES else 'accepts', wrong[0] if wrong else '', RING_ENTRIES))
         # ---- slot arithmetic
         try:
-            e = codec.through_locals(fn, ret['sub'])
             mul = None
-            for x in fn.subtree(e['id']):
+            for x in fn.subtree(ret['sub']):
                 m = fn.nodes[x]
                 if m.get('k') == 'binop' and m['op'] == '*':
                     mul = m
             if mul is None:
                 raise Shape('returned address is not &table[slot * constant]')
-            a, b = codec.through_locals(fn, mul['lhs']), codec.through_locals(fn, mul['rhs'])
             ca, cb = fn.const_value(mul['lhs']), fn.const_value(mul['rhs'])
             if cb is not None and ca is None:
-                slot, stride = a, cb
+                slot, stride = resolve(fn, mul['lhs']), cb
             elif ca is not None and cb is None:
-                slot, stride = b, ca
+                slot, stride = resolve(fn, mul['rhs']), ca
             else:
                 raise Shape('returned address is not &table[slot * constant]')
-            slot = strip_casts(fn, slot['id'])
             if slot is None or slot.get('k') != 'binop' or slot['op'] != '%':
                 raise Shape('slot is not reduced with %')
             mod = fn.const_value(slot['rhs'])
             terms = linear_terms(fn, slot['lhs'])
-            cur_terms = [s for (s, t) in terms if this_field(fn, t) is not None]
-            cur_fields = {this_field(fn, t) for (s, t) in terms if this_field(fn, t) is not None}
-            idx_terms = [s for (s, t) in terms if t.get('k') == 'var' and t.get('d') == idxd]
+            cur_terms = [sg for (sg, t) in terms if this_field(fn, t) is not None]
+            cur_fields = {this_field(fn, t) for (sg, t) in terms if this_field(fn, t) is not None}
+            idx_terms = [sg for (sg, t) in terms if t.get('k') == 'var' and t.get('d') == idxd]
             const_sum = 0
-            rest = 0
-            for (s, t) in terms:
+            for (sg, t) in terms:
                 if this_field(fn, t) is not None or (t.get('k') == 'var' and t.get('d') == idxd):
                     continue
                 cv = fn.const_value(t['id'])
                 if cv is None:
-                    rest += 1
-                else:
-                    const_sum += s * cv
-            if rest:
-                raise Shape('slot expression has terms that are neither the counter, the index nor constants')
+                    raise Shape('slot expression has a term that is neither the counter, the index nor a constant: %s' % fn.expr(t['id']))
+                const_sum += sg * cv
         except Shape as ex:
             R.broken('%s: %s' % (fn.q, ex))
             continue
         msgs = []
         if mod != N:
-            msgs.append('the slot is reduced modulo %s, add() wraps at number_of_entries = %d' % (mod, N))
-        if cur_terms != [1] or (cur is not None and cur_fields != {cur}):
+            msgs.append('the slot is reduced modulo %s, add() wraps at %d' % (mod, N))
+        if cur_terms != [1] or cur_fields != {cur}:
             msgs.append('the slot must be counted from the member add() advances (+1 x current entry)')
         if idx_terms != [-1]:
             msgs.append('the reference must be subtracted exactly once (reference 1 = the string stored last)')
@@ -1371,7 +1449,7 @@ def o5m_ring_rules(fb, R, TABLE=NS + 'ReferenceTable'):
             msgs.append('the constant offset %d is not a positive multiple of %d: reference k no longer addresses the k-th most recent '
                         'string (or the unsigned difference underflows)' % (const_sum, mod))
         if stride != ES:
-            msgs.append('entries are read with stride %d but written with entry_size %d' % (stride, ES))
+            msgs.append('entries are read with stride %d but written with stride %d' % (stride, ES))
         R.check(not msgs, R_RGET, fn.q + '#slot-arithmetic', fn.loc(ret['id']), '%s: %s' % (fn.q, '; '.join(msgs)),
                 detail={'modulus': mod, 'constant': const_sum, 'stride': stride})
 
@@ -1405,14 +1483,43 @@ def run(ctx):
         (R_ORDER, 1),
         (R_BE, 2),          # byte order, zero extension
         (R_LIMIT, 2),       # fd path, queue path
-        (R_SPECLIM, 4),     # two constants, two comparisons (check_size, read_blob_header_size_from_file)
+        (R_SPECLIM, 3),     # two constants, at least one throwing comparison (today 2: check_size, read_blob_header_size_from_file)
         (R_RESET, 12),      # 6 DeltaDecode members + 3 array elements + reference table, 2 clear() bodies
         (R_MARK, 1),
         (R_CODES, 9),
         (R_FRAME, 2),
-        (R_RCONST, 4),      # entries, max_length, entry_size, table size
+        (R_RCONST, 3),      # number of entries, entry size, table size
         (R_RADD, 2),
         (R_RGET, 2),
     ]
     for rule, n in floors:
         R.expect(rule, n)
+
+
+# ================================================================================================ positive self-tests
+
+P = 'c02_positive::'
+
+
+def _st_dispatch(fb, R):
+    sws, dc = pbf_dispatch_rules(fb, R)
+    if sws:
+        pbf_spec_rules(fb, R, sws, dc, like=(P + 'Msg',))
+
+
+def _st_block(fb, R):
+    sws = codec.pbf_switches(fb)
+    for cls in ('DecoderA', 'DecoderB'):
+        pbf_block_param_rules(fb, R, sws, PD=P + cls, RESOLUTION=P + 'lonlat_resolution', RESCONV=P + 'resolution_convert')
+    pbf_framing_rules(fb, R, PARSER=P + 'Framer', LIMIT=P + 'max_blob_header_size', BLOBLIMIT=P + 'max_uncompressed_blob_size')
+
+
+def _st_o5m(fb, R):
+    o5m_reset_rules(fb, R, PARSER=P + 'Parser', TABLE=P + 'ReferenceTable')
+    o5m_dataset_rules(fb, R, PARSER=P + 'Parser')
+    o5m_ring_rules(fb, R, TABLE=P + 'ReferenceTable')
+
+
+SELFTESTS = [(r, 'c02_dispatch.cpp', _st_dispatch) for r in (R_DEFAULT, R_ONCE, R_SPEC, R_SIB)] + \
+            [(r, 'c02_block.cpp', _st_block) for r in (R_FORMULA, R_LOC, R_TS, R_STORE, R_DEFAULTS, R_ORDER, R_BE, R_LIMIT, R_SPECLIM)] + \
+            [(r, 'c02_o5m.cpp', _st_o5m) for r in (R_RESET, R_MARK, R_CODES, R_FRAME, R_RCONST, R_RADD, R_RGET)]
